@@ -10,7 +10,7 @@
 From Coq Require Import List NArith Bool.
 From FIM Require Import Model.T8Graph Model.T8Ops Proofs.T8Frame Proofs.T8Query Proofs.T8Sound Proofs.T8SoundTop
      Proofs.T8Complete Proofs.T8Closed Proofs.T8Top Proofs.T8Owned Proofs.T8Handles Proofs.T8Fixed Proofs.T8Inv
-     Proofs.T8Link Proofs.T8Prune Proofs.T8Art Proofs.T8Witness.
+     Proofs.T8Link Proofs.T8Prune Proofs.T8Art Proofs.T8Eq Proofs.T8Witness.
 Import ListNotations.
 
 (* ================= "leaves every other element, property and connection exactly as it was" ============ *)
@@ -169,6 +169,31 @@ Theorem C08_link_iff_needs_WL :
   surv (snd (snd (run (exec false (ORemoveInterface 1 2) [[2%N]]) G11))) (cpn G11 4) = [5%N].
 Proof. exact link_iff_needs_WL. Qed.
 Print Assumptions C08_link_iff_needs_WL.
+
+(* ================= THE EQUATION: deleted = owned U artefacts =========================================
+   For the element removals (remove_node / remove_facility / remove_switch / remove_component /
+   Topology.remove_network_service / Node.remove_network_service) that return normally on a well-formed graph, the
+   upper bound (C08_nothing_else_deleted) and the lower bounds (owned, artefact ports, links) meet:
+     - a node that is not a link is deleted  <->  the addressed element owns it, or it is the ServicePort across a
+       two-ended link from one of the element's interfaces (sub-interfaces of dedicated ports included);
+     - a link is deleted  <->  it had >= 2 ends, lost >= 1 and <= 1 survives.
+   WQ g = WP g (distinct ids, <= 1 link per connection point, ServicePorts have no neighbouring connection point,
+   `connects` edges at links and between services and ports) + WL g (no link with two ends in one port family) +
+   sub-interfaces hang on their port alone + a link that carries a ServicePort has exactly two ends.  `wqb` decides it;
+   the harness reports how many generated states satisfy it. *)
+Theorem C08_deleted_nonlinks_iff : forall ex o cs g r g' tr,
+  WQ g -> element_removal o = true -> run (exec ex o cs) g = (inl r, (g', tr)) ->
+  forall x, class_of g x <> CLink -> (In x tr <-> owned g o x \/ artefact g o x).
+Proof. exact deleted_nonlinks_iff. Qed.
+Print Assumptions C08_deleted_nonlinks_iff.
+
+Theorem C08_deleted_links_iff : forall ex o cs g r g' tr,
+  WQ g -> element_removal o = true -> run (exec ex o cs) g = (inl r, (g', tr)) ->
+  forall l, class_of g l = CLink ->
+    (In l tr <-> ((2 <= length (cpn g l))%nat /\ (length (surv tr (cpn g l)) <= 1)%nat /\
+                  exists e, In e (cpn g l) /\ In e tr)).
+Proof. exact deleted_links_iff. Qed.
+Print Assumptions C08_deleted_links_iff.
 
 (* ================= prune as repaired by proposed_fixes/C08-7 (operation OPrune7) ======================
    Selected by the harness when the running library's _prune_ns contains the node_exists guard.  Every removal step
@@ -366,3 +391,6 @@ Example C08_nonvacuous_own_services_peer :
   topo_nodes G12 1 = [1%N] /\ sortN (disc_list G12 (node_interface_list G12 1)) = [4; 5]%N /\
   peer_cps G12 4 = [5%N] /\ type_of G12 4 = T_ServicePort.
 Proof. split; [exact WP_G12|]. split; [exact WP_G1|]. split; [exact link2_G12|]. exact ex_own_services_peer. Qed.
+
+Example C08_nonvacuous_equation : WQ G1 /\ WQ G12 /\ WQ G10.
+Proof. split; [exact WQ_G1|]. split; [exact WQ_G12 | exact WQ_G10]. Qed.
